@@ -4,7 +4,7 @@
 From Coq Require Import List ZArith Bool Sorted.
 From Coq.Strings Require Import Byte.
 Import ListNotations.
-From SV Require Import Text C12_Model C12_Lemmas C12_Gap C12_Modes C12_GapSet.
+From SV Require Import Text C12_Model C12_Lemmas C12_Gap C12_Modes C12_GapSet C12_Rx C12_RxProofs.
 Local Open Scope Z_scope.
 
 (* P0, every mode (need_start always/once/never x need_stop), every sequence, every rf and minlen -- no hypothesis:
@@ -499,3 +499,27 @@ Theorem C12_custom_overlap_refuted :
                    ~ In (Z.of_nat i) (starts_w ws s f).
 Proof. exact custom_overlap_refuted. Qed.
 Print Assumptions C12_custom_overlap_refuted.
+
+(* ARBITRARY regular expressions as start / stop patterns (find_orfs(start='A[TU]G', stop='T(?:AA|AG|GA)'), regex trees and
+   backtracking matcher of C13_Rx, gap rewriting with a character class as one unit), any gap option, every rf form incl.
+   repeated and out-of-range frames, every need_start x need_stop mode, NO hypothesis: the call raises the documented class
+   for the rf form or returns ORFs that lie inside the sequence, respect minlen and identify a requested frame *)
+Theorem C12_rx_invariants : forall gap (rs rp : C13_Rx.rx) rf ns need_stop minlen s,
+  match rf with
+  | RAspec r => exists l, find_orfs_rx gap rs rp rf ns need_stop minlen s = XOk l /\
+      Forall (fun o => 0 <= o_start o /\ o_start o < o_stop o /\ o_stop o <= Z.of_nat (length s) /\
+                       minlen <= o_stop o - o_start o /\ In (o_rf o) (frames_of r) /\ o_plus o = (o_rf o >=? 0)) l
+  | RAbadstr => find_orfs_rx gap rs rp rf ns need_stop minlen s = XErr (bs "AssertionError"%bs)
+  | _ => find_orfs_rx gap rs rp rf ns need_stop minlen s = XErr (bs "TypeError"%bs)
+  end.
+Proof. exact rx_invariants. Qed.
+Print Assumptions C12_rx_invariants.
+
+Example C12_witness_rx :
+  let rs := C13_Rx.XCat (C13_Rx.XChr "A"%byte) (C13_Rx.XCat (C13_Rx.XCls false (bs "TU"%bs)) (C13_Rx.XChr "G"%byte)) in
+  let rp := C13_Rx.XCat (C13_Rx.XChr "T"%byte) (C13_Rx.XGrp false (C13_Rx.XAlt (C13_Rx.XCat (C13_Rx.XChr "A"%byte) (C13_Rx.XChr "A"%byte))
+                                                                               (C13_Rx.XCat (C13_Rx.XChr "G"%byte) (C13_Rx.XChr "A"%byte)))) in
+  C13_Rx.show rs = bs "A[TU]G"%bs /\ C13_Rx.show rp = bs "T(?:AA|GA)"%bs /\
+  wf_C12rx (Some (bs "-"%bs)) rs rp (RAspec RFboth) NSAlways true 0 (bs "CCA-TGAAATA-AC"%bs) = true /\
+  find_orfs_rx (Some (bs "-"%bs)) rs rp (RAspec RFboth) NSAlways true 0 (bs "CCA-TGAAATA-AC"%bs) = XOk [mkorf 2 13 true 2].
+Proof. exact (conj eq_refl (conj eq_refl (conj eq_refl eq_refl))). Qed.
